@@ -549,9 +549,10 @@ func (s *Sim) LogHash() uint64 {
 
 // RWMutex replaces sync.RWMutex inside package env at check time.
 type RWMutex struct {
-	real sync.RWMutex
-	w    *Task
-	r    []*Task
+	real     sync.RWMutex
+	w        *Task
+	r        []*Task
+	pendingW int
 }
 
 func (m *RWMutex) heldBy(t *Task, writeOnly bool) bool {
@@ -569,15 +570,31 @@ func (m *RWMutex) heldBy(t *Task, writeOnly bool) bool {
 	return false
 }
 
-// Lock acquires the write lock; a scheduling decision inside a simulation.
+// Lock acquires the write lock. Inside a simulation the call is a scheduling
+// decision (the task parks just before it announces itself); if the lock is not
+// free when the task is released, it becomes a pending writer - which, as with
+// sync.RWMutex, blocks every later RLock - and parks until the lock is free.
 func (m *RWMutex) Lock() {
 	s, t := current()
 	if t == nil {
 		m.real.Lock()
 		return
 	}
-	s.yield(t, "lock", func() bool { return m.w == nil && len(m.r) == 0 })
+	s.yield(t, "lock", nil)
 	s.mu.Lock()
+	if m.w == nil && len(m.r) == 0 {
+		m.w = t
+		s.Counters["lock"]++
+		s.mu.Unlock()
+		m.real.Lock()
+		return
+	}
+	m.pendingW++
+	s.Counters["lock_blocked"]++
+	s.mu.Unlock()
+	s.yield(t, "lock-wait", func() bool { return m.w == nil && len(m.r) == 0 })
+	s.mu.Lock()
+	m.pendingW--
 	m.w = t
 	s.Counters["lock"]++
 	s.mu.Unlock()
@@ -604,14 +621,28 @@ func (m *RWMutex) Unlock() {
 	m.real.Unlock()
 }
 
-// RLock acquires a read lock; a scheduling decision inside a simulation.
+// RLock acquires a read lock; a scheduling decision inside a simulation. A
+// writer that is holding the lock, or waiting for it, blocks the reader (also
+// a reader that already holds a read lock: recursive read locking deadlocks
+// against a pending writer, exactly as with sync.RWMutex).
 func (m *RWMutex) RLock() {
 	s, t := current()
 	if t == nil {
 		m.real.RLock()
 		return
 	}
-	s.yield(t, "rlock", func() bool { return m.w == nil })
+	s.yield(t, "rlock", nil)
+	s.mu.Lock()
+	if m.w == nil && m.pendingW == 0 {
+		m.r = append(m.r, t)
+		s.Counters["rlock"]++
+		s.mu.Unlock()
+		m.real.RLock()
+		return
+	}
+	s.Counters["rlock_blocked"]++
+	s.mu.Unlock()
+	s.yield(t, "rlock-wait", func() bool { return m.w == nil && m.pendingW == 0 })
 	s.mu.Lock()
 	m.r = append(m.r, t)
 	s.Counters["rlock"]++
@@ -678,7 +709,7 @@ func (m *RWMutex) TryRLock() bool {
 	}
 	s.yield(t, "tryrlock", nil)
 	s.mu.Lock()
-	ok := m.w == nil
+	ok := m.w == nil && m.pendingW == 0
 	if ok {
 		m.r = append(m.r, t)
 	}
